@@ -1,6 +1,6 @@
 //@unit spawn
 //@include models/spawn.rs
-//@thread posix::pipe posix::fork posix::_exit posix::reset_sigpipe posix::setuid posix::setgid posix::setpgid posix::prep_exec:ro posix::os_to_cstring:ro posix::chdir dup2_file .write_all .read .call .os_wait set_inheritable make_pipe drop_file format_env_opt:ro os::make_pipe os::set_inheritable .setup_streams .os_start Popen::do_exec prepare_pipe prepare_file prepare_rc_file .drop_impl
+//@thread posix::pipe posix::fork posix::_exit posix::reset_sigpipe posix::setuid posix::setgid posix::setpgid posix::prep_exec:ro posix::os_to_cstring:ro posix::chdir dup2_file .write_all .read .call .os_wait .waitpid set_inheritable make_pipe drop_file format_env_opt:ro os::make_pipe os::set_inheritable .setup_streams .os_start Popen::do_exec prepare_pipe prepare_file prepare_rc_file .drop_impl
 
 //@source src/popen.rs
 use std::result;
